@@ -98,6 +98,8 @@ def run(ctx):
             lines = core.read_lines(f)
             for fl in r.fails:
                 ev = json.loads(lines[fl["line"] - 1])
+                if ev.get("e") == "Crash":
+                    ev = {"e": "Crash", "kind": ev.get("kind", "?"), "steps": ev["case"].get("steps", []), "sig": ev.get("sig"), "obs": [], "fresh": []}
                 rec = {"prop": fl["prop"], "clause": fl["clause"], "detail": fl["detail"], "case": {"steps": ev["steps"], "kind": ev["kind"]},
                        "event": ev, "harness": {"args": byf[f]["args"]}}
                 if fl["prop"] == "C12" and ev["kind"] == "off":
@@ -114,12 +116,15 @@ def replay_rec(rec):
     a = dict(rec["harness"]["args"])
     # rebuild the history line (with abstract states) from the logged steps + fresh states
     ev = rec["event"]; steps = []; k = 0
-    obs_idx = {o[0]: n for n, o in enumerate(ev["obs"])}
-    for i, st in enumerate(ev["steps"], 1):
-        if i in obs_idx:
-            fr = ev["fresh"][obs_idx[i]]; steps.append([st[0], st[1], fr[0], fr[1], fr[2]])
-        else:
-            steps.append(st)
+    if ev.get("e") == "Crash":
+        steps = ev["steps"]          # the generator's history line (abstract states included)
+    else:
+        obs_idx = {o[0]: n for n, o in enumerate(ev["obs"])}
+        for i, st in enumerate(ev["steps"], 1):
+            if i in obs_idx:
+                fr = ev["fresh"][obs_idx[i]]; steps.append([st[0], st[1], fr[0], fr[1], fr[2]])
+            else:
+                steps.append(st)
     with open(inf, "w") as f:
         f.write(json.dumps(steps) + "\n")
     a.update({"in": inf, "skip": 0, "stride": 1})
